@@ -35,6 +35,7 @@ import Driver.GeomFix
 import Driver.FdWorld
 import Driver.Alac
 import Driver.AbsWrite
+import Driver.AbsTwin
 open Sf
 
 def lawOf (s : String) : Option G711.Law :=
@@ -115,4 +116,5 @@ def main (args : List String) : IO UInt32 := do
   | "fdworld" :: _ => FdWorldDriver.cmd
   | "alac" :: rest => Driver.Alac.cmd rest
   | "abs-write" :: rest => AbsWriteDriver.cmd rest
+  | "abs-twin" :: rest => AbsTwinDriver.cmd rest
   | _ => IO.eprintln "usage: sfmodel <g711|...> ..."; return 2
